@@ -30,7 +30,7 @@ CHECKS["C02"] = dict(
     technique="runtime monitoring: offline checker over the recorded evaluation-record tree + online hook assertions on record open/close",
     text="All CNF shapes up to 3x3 with leaves forced to PASS/FAIL/SKIP are evaluated at 9 composition sites (thorough: all ~490k; quick: "
          "all shapes with <=2 lines plus a sample) and random programs with type blocks, parameterised rules, nested when/blocks are "
-         "evaluated on random documents; every status assignment of 1-3 definitions of one rule name x 5 ways of naming it (clause, not, when, when !, or line) x user before/after is checked against `the first definition that is not SKIP decides`, and a parameterised rule forced to PASS / FAIL / SKIP x 6 call forms. Each emitted EventRecord tree is checked node by node against the property's composition "
+         "evaluated on random documents; every status assignment of 1-3 definitions of one rule name x 5 ways of naming it (clause, not, when, when !, or line) x user before/after is checked against `the first definition that is not SKIP decides`, a parameterised rule forced to PASS / FAIL / SKIP x 6 call forms, and type / filter / list blocks over two values whose bodies are forced to every pair of statuses. Each emitted EventRecord tree is checked node by node against the property's composition "
          "rules, the rule status against the formula over the forced leaves, the hook stream for balanced records, and the root "
          "status against the structured report and the exit code of `validate --print-json`; with 2-3 data files in one run every root of the printed list is checked against its own data file and the exit code against the worst of them.",
     note="Trusts the leaf gadgets to have the intended status (itself asserted through the tree). Filter records are treated as "
@@ -41,7 +41,7 @@ CHECKS["C04"] = dict(
     technique="runtime monitoring: metamorphic order/repetition monitor with hook-observed memoisation histories",
     text="Random base programs that share variables and named references (30% with an alternative, `when`-guarded definition of a rule name) are evaluated together with up to ~25 order/repetition "
          "transforms each (all permutations of small rule bodies and rule orders, shuffled alternatives, duplicated lines, alternatives "
-         "and rules, early/late references, a map with case-variant spellings of its keys addressed in a third spelling under 26 rule orders and all line orders, inserted filter lines that select nothing and therefore skip) on 2-3 documents; rule->status maps must agree. The verif-hooks event stream shows "
+         "and rules, early/late references, cyclic rule references under every rule order, a map with case-variant spellings of its keys addressed in a third spelling under 26 rule orders and all line orders, inserted filter lines that select nothing and therefore skip) on 2-3 documents; rule->status maps must agree. The verif-hooks event stream shows "
          "how many distinct variable-resolution orders and rule-status hit/miss patterns were actually exercised.",
     note="Groups where any variant errors are inconclusive (the property's proviso). Trusts the printer/parser round trip of the generated AST.",
     ref="DESIGN.md §6 P-C04")
@@ -53,7 +53,7 @@ CHECKS["C15"] = dict(
          "shadowing, a key of a query taken from a variable (`a.%k`), inlining of parameterised-rule calls - and both programs are evaluated on the same document; the rule->status maps "
          "must agree. Divergences are classified (hypothesis program for the `[*]`-after-variable quirk, per-line attribution for inlining) "
          "so that known findings have narrow signatures. Exhaustive key-interpolation matrix (12 clause forms x 3 polarities x 12 value classes x file/rule/block scope), call-volume check "
-         "(3/70/200 elements x call per element, nested, 90 sequential, negated; twice per process) and idle-argument check (rewriting the argument of an unread parameter as `some q` or a literal); key-list matrix (a list of key names in a variable, literal / query-bound / passed as parameter, some keys absent, vs the keys written one by one); block-let matrix (a `let` inside rule / when / type / query blocks and filters, bound to literal, query, function result, vs the in-place form).",
+         "(3/70/200 elements x call per element, nested, 90 sequential, negated; twice per process) and idle-argument check (rewriting the argument of an unread parameter as `some q` or a literal); keys-filter matrix (right-hand side from a literal-bound variable vs the literal in place); key-list matrix (a list of key names in a variable, literal / query-bound / passed as parameter, some keys absent, vs the keys written one by one); block-let matrix (a `let` inside rule / when / type / query blocks and filters, bound to literal, query, function result, vs the in-place form).",
     note="Skips the documented exception (`q empty` -> `%v empty`). Trusts the printer. Known findings: three classes in known_findings.json.",
     ref="DESIGN.md §6 P-C15")
 
@@ -70,7 +70,7 @@ CHECKS["C06"] = dict(
     technique="runtime monitoring: real-process exit-status monitor with a scenario classifier as oracle",
     text="The shipped binary is run as real processes on scenarios built from finite classes (1..3 rules files from 9 kinds (incl. rules whose `when` guard decides by data and files that are not UTF-8) x 1..3 data "
          "files from 6 kinds (incl. documents no rule applies to; every single-rules-file combination always runs), every position, x 12 invocation modes incl. payload, stdin, directories, explicit files mixed with directories in one option list (both orders), structured json/yaml/junit/sarif; "
-         "`test` scenarios x 4 formats x 4 layouts - files, directory, directory with 2-3 rules files and the scenario file at each position, --test-data directory with the scenario file in a sub-directory); the exit status must fall in the class a 30-line classifier derives from what the "
+         "`test` scenarios x 4 formats x 4 layouts - files, directory, directory with 2-3 rules files and the scenario file at each position, --test-data directory with the scenario file in a sub-directory between all-matching files, with and without -a / -m); the exit status must fall in the class a 30-line classifier derives from what the "
          "generator built (per-pair verdicts confirmed by singleton library runs); in-process results must agree with process exits; "
          "missing paths and unusable option combinations must give an error exit, never 0 or 19; re-runs under NO_COLOR / CLICOLOR_FORCE / TERM settings must keep the exit status.",
     note="Trusts singleton run_checks verdicts for pair classification and PyYAML for deciding that a 'malformed' sample really is malformed. "
@@ -79,7 +79,7 @@ CHECKS["C06"] = dict(
 
 CHECKS["C05"] = dict(
     technique="runtime monitoring: repeated-execution differential monitor (fresh processes, rotated environments, in-process repetition)",
-    text="29 command/output modes (incl. two runs that end in an evaluation error naming the rules of the file - stderr compared; validate structured json/yaml/sarif/junit, plain json/yaml, print-json, console variants, parse-tree, test in "
+    text="29 command/output modes (incl. runs that end in an error - unknown rule / call, a tests file whose expectations are all misspelt - stderr and structured error text compared; validate structured json/yaml/sarif/junit, plain json/yaml, print-json, console variants, parse-tree, test in "
          "4 renderings, rulegen (template with values and property names that differ only in letter case or type), and 4 modes of function rules: parse_epoch over 12 timestamp spellings incl. zone-less and DST-gap ones, case mapping, "
          "conversions, join/regex_replace; 2 console modes on Terraform-plan-shaped data; 3 modes writing to an --output file that held other content before) are each run 5 (quick) / 8 (thorough) times as fresh processes of the shipped binary - fresh hash seeds - under "
          "input files re-stamped in another modification-time order before every run, rotated TZ (tzdata names and POSIX strings)/LANG/HOME/COLUMNS/NO_COLOR/CLICOLOR_FORCE/RUST_BACKTRACE/cwd/pipe-vs-file, and payload modes 5 times inside one process; exit codes must be "
@@ -105,7 +105,7 @@ CHECKS["C07"] = dict(
          "function in verbose and report mode, incl. reports > 8 KiB) are parsed back by independent parsers (python json, PyYAML, xml.etree, "
          "regex) and must agree on rule->status, file status and exit code; YAML==JSON as data, SARIF result count == failing checks, JUnit marks/counters. Groups of 2-3 rules files (distinct names, or one base name in different directories) x 1-3 data files, half of them with an "
          "--input-parameters document, go through 13 configurations (files, payload; plain, structured) and must agree on the exit code and the per-pair verdicts; "
-         "documents and custom messages carry markup-significant characters (<, &, quotes); in multi-file JUnit output every testsuite's failures=/errors= must count its own cases and agree with that data file's structured status.",
+         "a quarter of the programs define one rule name twice with different outcomes; documents and custom messages carry markup-significant characters (<, &, quotes); in multi-file JUnit output every testsuite's failures=/errors= must count its own cases and agree with that data file's structured status.",
     note="Console reporters show only what -S selects: containment there, equality for -S all. The Lambda handler itself cannot be linked; it is covered via run_checks with its argument pattern.",
     ref="DESIGN.md §6 P-C07")
 
@@ -131,7 +131,7 @@ CHECKS["C16"] = dict(
 CHECKS["C17"] = dict(
     technique="runtime monitoring: differential monitor against the pre-merged document, over all -i orders and modes",
     text="Documents are split at random into data + 1-3 parameter files (JSON/YAML, differing sizes; flat names, the same base name in different "
-         "directories, or one directory given to -i, with stray non-data files in it; 30% of the parameter files are symbolic links); validating with -i in every order, in plain and "
+         "directories, or one directory given to -i, with stray non-data files in it; 30% of the parameter files are symbolic links, 60% of the lists carry an argument that contributes nothing); validating with -i in every order, in plain and "
          "structured mode, with one or two data files and in payload mode must give the verdicts and exit class of validating the pre-merged document; "
          "rules read keys by name and iterate the merged root map (`this.*`, `[ keys == | in | regex ]`); a deliberately overlapping key (param/param, "
          "data/param; scalar, list and map values, equal or different) must produce an error exit without a verdict - not a crash, not a silent choice - in both modes.",
@@ -163,7 +163,7 @@ CHECKS["C11"] = dict(
          "emitter as JSON compact/pretty, YAML flow and YAML block with random quoting/indent/comments; the verif-hooks loader probes dump every loaded "
          "node for the validate (libyaml) and the test/library (serde) loader and are compared type-strictly, incl. key and list order, with the model; "
          "the document must equal its own Guard literal and pass per-path type probes through validate, --payload, run_checks and test; all 21 tags x "
-         "{scalar, sequence} x 3 nestings are compared with their long form, the YAML core tags (!!str, !!int, !!float, !!bool, !!null) must type a scalar as they say in both loaders; JSON texts with \\uXXXX / \\n / \\/ escapes must load to the string Python's json gives; ill-formed texts, non-string keys and tagged (non-plain) keys must be rejected by all 6 front ends. "
+         "{scalar, sequence} x 3 nestings are compared with their long form, the YAML core tags (!!str, !!int, !!float, !!bool, !!null) must type a scalar as they say in both loaders; a front end that refuses a text the others evaluate is a violation; JSON texts with \\uXXXX / \\n / \\/ escapes must load to the string Python's json gives; ill-formed texts, non-string keys and tagged (non-plain) keys must be rejected by all 6 front ends. "
          "Thorough tier: ~90 documents (hostile texts, generated serialisations, tag documents) are loaded by the libyaml loader under Miri (undefined-behaviour interpreter).",
     note="Strings that YAML or Guard would type as non-strings are always emitted quoted (spellings outside the property are not generated plain). "
          "Multi-document streams and aliases are out of the statement.",
@@ -172,7 +172,7 @@ CHECKS["C11"] = dict(
 CHECKS["C10"] = dict(
     technique="runtime monitoring: independent pointer-walk and source-position monitor over structured reports and hooked loader dumps",
     text="Documents (incl. random doubles, 64-bit integers, YAML literal/folded block scalars, ASCII-escaped JSON strings, JSON members shadowed by an earlier member of the same key, subtrees under empty-string keys; CRLF, leading blank lines, tab-indented JSON) written by a position-tracking emitter in 4 layouts are validated against rules that fail on every node (one clause per scalar, "
-         "unresolved probes below every map/list/scalar incl. keys taken from variables (`a.%k`), `in`, list iteration, filter-then-[*] on lists of lists and query right-hand sides); every reported from/to/traversed_to {path, "
+         "unresolved probes below every map/list/scalar incl. keys taken from variables (`a.%k`), `in`, list iteration, filter-then-[*] on lists of lists and query right-hand sides, queries spelled in another case convention than the document); every reported from/to/traversed_to {path, "
          "value} is resolved in the model document by an independent walk and must yield exactly that value, unresolved reports must stop at the "
          "deepest existing point of the queried path, and every [L,C] in messages - and, through the verif-hooks loader probe, of every scalar node - "
          "must equal the line/column where the emitter wrote that scalar.",
